@@ -388,7 +388,7 @@ func runJob(job *Job) *JobResult {
 	res.Fns = in.fnsSeen
 	res.Stubs = in.stubsSeen
 	res.Queries = in.queryDump
-	res.Distinct = len(in.queryHashes)
+	res.Distinct = len(in.queryHashes) + len(in.pathHashes)
 	res.SolverErrs = sv.Errors
 	res.Samples = in.xsamples
 	return res
@@ -742,7 +742,7 @@ func finish(id string, cfg *CheckConfig, tier string, seed int64, results []*Job
 		"paths":               paths,
 		"evaluations":         evals,
 		"distinct_nontrivial": distinct,
-		"rule": firstNonEmpty(cfg.Rule, "each evaluation is one SMT query (branch feasibility or PC∧¬assertion) produced by symbolic execution of the listed goom functions; distinct_nontrivial counts distinct (path condition, negated assertion) pairs whose assertion was not constant-folded, sent to the solver"),
+		"rule": firstNonEmpty(cfg.Rule, "each evaluation is one SMT query (branch feasibility or PC∧¬assertion) produced by symbolic execution of the listed goom functions; distinct_nontrivial = number of distinct explored paths whose path condition mentions symbolic inputs or explicit choices (hash of conjuncts and decisions) plus the number of distinct (path condition, negated assertion) queries that were not decided by constant folding and went to the solver"),
 		"samples":             samples,
 		"functions_encoded":   fnList,
 		"stubs_used":          stubList,
